@@ -9,6 +9,7 @@ import (
 	"compress/zlib"
 	"fmt"
 	"io"
+	"math/rand"
 	"sort"
 	"strings"
 	"testing"
@@ -486,6 +487,454 @@ func TestB2C04ObjStmLayouts(t *testing.T) {
 				t.Errorf("B2-FAIL objstm-layout sep=%q first=%q: got %v (%v)", sep, first, AsString(got), err)
 			}
 		}
+	}
+	t.Logf("B2-CASES %d", cases)
+}
+
+// ---- literal strings: every spelling, judged by a decoder written from the specification ----
+
+// c04RefLiteral decodes a literal string per ISO 32000-1 7.3.4.2.  text starts behind the
+// opening parenthesis; the result is the value and the number of bytes used including the
+// closing parenthesis (ok is false when the string does not end inside text).
+//   - balanced unescaped parentheses are part of the string
+//   - REVERSE SOLIDUS + one of n r t b f ( ) \ : the character of table 3
+//   - REVERSE SOLIDUS + 1 to 3 octal digits: that code, high-order overflow ignored
+//   - REVERSE SOLIDUS + end-of-line marker (CR, LF or CR LF): nothing
+//   - REVERSE SOLIDUS + anything else: the REVERSE SOLIDUS is ignored
+//   - an end-of-line marker (CR, LF or CR LF) without REVERSE SOLIDUS: one LF
+func c04RefLiteral(text []byte) (val []byte, used int, ok bool) {
+	depth := 1
+	i := 0
+	for i < len(text) {
+		c := text[i]
+		i++
+		switch c {
+		case '(':
+			depth++
+			val = append(val, c)
+		case ')':
+			depth--
+			if depth == 0 {
+				return val, i, true
+			}
+			val = append(val, c)
+		case '\r':
+			val = append(val, '\n')
+			if i < len(text) && text[i] == '\n' {
+				i++
+			}
+		case '\\':
+			if i >= len(text) {
+				return nil, 0, false
+			}
+			e := text[i]
+			switch {
+			case e == 'n':
+				val = append(val, '\n')
+				i++
+			case e == 'r':
+				val = append(val, '\r')
+				i++
+			case e == 't':
+				val = append(val, '\t')
+				i++
+			case e == 'b':
+				val = append(val, '\b')
+				i++
+			case e == 'f':
+				val = append(val, '\f')
+				i++
+			case e == '(' || e == ')' || e == '\\':
+				val = append(val, e)
+				i++
+			case e >= '0' && e <= '7':
+				code := 0
+				for k := 0; k < 3 && i < len(text) && text[i] >= '0' && text[i] <= '7'; k++ {
+					code = code*8 + int(text[i]-'0')
+					i++
+				}
+				val = append(val, byte(code&0xff))
+			case e == '\n':
+				i++
+			case e == '\r':
+				i++
+				if i < len(text) && text[i] == '\n' {
+					i++
+				}
+			default:
+				// the REVERSE SOLIDUS is ignored; the next byte is ordinary data (it is none of
+				// the bytes with a meaning of their own, those are handled above)
+			}
+		default:
+			val = append(val, c)
+		}
+	}
+	return nil, 0, false
+}
+
+// c04CheckLiteral reads "[(" body ")/E]" with pad bytes of white space in front and compares
+// with the expected string value; the name behind the string shows where the string ended.
+func c04CheckLiteral(t *testing.T, kind string, body, want []byte, pad int, fails *int) {
+	text := strings.Repeat(" ", pad) + "[(" + string(body) + ")/E]"
+	s := newScanner(strings.NewReader(text), nil, nil)
+	var got Object
+	err := s.SkipWhiteSpace()
+	if err == nil {
+		got, err = s.ReadObject()
+	}
+	arr, _ := got.(Array)
+	good := err == nil && len(arr) == 2 && arr[1] == Name("E")
+	if good {
+		str, ok := arr[0].(String)
+		good = ok && bytes.Equal(str, want)
+	}
+	if !good {
+		*fails++
+		if *fails <= 25 {
+			t.Errorf("B2-FAIL %s text=%q pad=%d want=%q got=%s err=%s", kind, "("+string(body)+")", pad, want, b2Short(got), b2ShortErr(err))
+		}
+	}
+}
+
+// TestB2C04LiteralStrings: all literal strings whose body has up to 6 (thorough: 8) bytes over
+// the bytes that have a meaning inside a literal string, with the value given by c04RefLiteral.
+func TestB2C04LiteralStrings(t *testing.T) {
+	alphabet := []byte{'a', '\n', '\r', '\\', '(', ')', '1', 'n'}
+	maxLen := 6
+	if b2Thorough() {
+		maxLen = 8
+	}
+	cases, fails := 0, 0
+	body := make([]byte, 0, maxLen+4)
+	var rec func(l int)
+	rec = func(l int) {
+		// a conforming spelling of a string: the string ends exactly at the parenthesis we add
+		full := append(append([]byte{}, body...), ")/E]"...)
+		if want, used, ok := c04RefLiteral(full); ok && used == len(body)+1 {
+			cases++
+			c04CheckLiteral(t, "literal-string", body, want, 0, &fails)
+		}
+		if l == maxLen {
+			return
+		}
+		for _, c := range alphabet {
+			body = append(body, c)
+			rec(l + 1)
+			body = body[:len(body)-1]
+		}
+	}
+	rec(0)
+	if fails > 25 {
+		t.Errorf("B2-FAIL literal-string (%d further failures not listed)", fails-25)
+	}
+	t.Logf("B2-CASES %d", cases)
+}
+
+// c04SpellLiteral writes val as the body of a literal string, choosing at random among the
+// conforming spellings of every byte: raw, named escape, octal escape with 1 to 3 digits, LF
+// also as a raw CR or CR LF, parentheses raw where they balance; line continuations
+// (REVERSE SOLIDUS + LF, CR or CR LF) are strewn in.
+func c04SpellLiteral(rng *rand.Rand, val []byte) []byte {
+	// parentheses that have a partner may stay unescaped (as whole pairs)
+	raw := make([]bool, len(val))
+	var stack []int
+	for i, c := range val {
+		if c == '(' {
+			stack = append(stack, i)
+		} else if c == ')' && len(stack) > 0 {
+			j := stack[len(stack)-1]
+			stack = stack[:len(stack)-1]
+			if rng.Intn(3) > 0 {
+				raw[i], raw[j] = true, true
+			}
+		}
+	}
+	var out []byte
+	lastRawCR := false // a raw LF directly behind a raw CR would join it to one end-of-line marker
+	emit := func(s string) {
+		out = append(out, s...)
+		lastRawCR = s[len(s)-1] == '\r'
+	}
+	octal := func(c byte, next byte, hasNext bool) {
+		digits := 3
+		if !hasNext || next < '0' || next > '9' {
+			// fewer than three digits only when no digit follows
+			digits = 1 + rng.Intn(3)
+		}
+		full := fmt.Sprintf("%03o", c)
+		for digits < 3 && full[:3-digits] != strings.Repeat("0", 3-digits) {
+			digits++
+		}
+		emit("\\" + full[3-digits:])
+	}
+	for i, c := range val {
+		if rng.Intn(6) == 0 {
+			emit([]string{"\\\n", "\\\r", "\\\r\n"}[rng.Intn(3)])
+		}
+		var next byte
+		hasNext := i+1 < len(val)
+		if hasNext {
+			next = val[i+1]
+		}
+		named := map[byte]string{'\n': "\\n", '\r': "\\r", '\t': "\\t", '\b': "\\b", '\f': "\\f", '(': "\\(", ')': "\\)", '\\': "\\\\"}
+		switch {
+		case c == '\n':
+			switch k := rng.Intn(6); {
+			case k == 0 && !lastRawCR:
+				emit("\n")
+			case k == 1:
+				emit("\r")
+			case k == 2:
+				emit("\r\n")
+			case k == 3:
+				octal(c, next, hasNext)
+			case k == 4 && !lastRawCR:
+				emit("\n")
+			default:
+				emit("\\n")
+			}
+		case c == '\r' || c == '\\':
+			if rng.Intn(3) == 0 {
+				octal(c, next, hasNext)
+			} else {
+				emit(named[c])
+			}
+		case c == '(' || c == ')':
+			if raw[i] {
+				emit(string([]byte{c}))
+			} else if rng.Intn(4) == 0 {
+				octal(c, next, hasNext)
+			} else {
+				emit(named[c])
+			}
+		default:
+			switch k := rng.Intn(8); {
+			case k == 0:
+				octal(c, next, hasNext)
+			case k == 1 && named[c] != "":
+				emit(named[c])
+			case k == 2 && strings.IndexByte("nrtbf()\\01234567\r\n", c) < 0:
+				// a REVERSE SOLIDUS in front of any other character is ignored
+				emit("\\" + string([]byte{c}))
+			default:
+				emit(string([]byte{c}))
+			}
+		}
+	}
+	// a raw LF that the caller appends is not our business: the string ends with ")"
+	return out
+}
+
+// TestB2C04LiteralStringsRandom: random values (all byte values, multi-line text favoured) in
+// random conforming spellings, at random positions relative to the scanner's buffer.
+func TestB2C04LiteralStringsRandom(t *testing.T) {
+	rng := rand.New(rand.NewSource(c01Seed()))
+	rounds := 100000
+	if b2Thorough() {
+		rounds = 2000000
+	}
+	fails := 0
+	special := []byte("\n\n\n\r\r()\\ \t0189anrtbf\x00\xff")
+	for i := 0; i < rounds; i++ {
+		n := rng.Intn(40)
+		val := make([]byte, n)
+		for j := range val {
+			if rng.Intn(4) == 0 {
+				val[j] = byte(rng.Intn(256))
+			} else {
+				val[j] = special[rng.Intn(len(special))]
+			}
+		}
+		body := c04SpellLiteral(rng, val)
+		// the independent decoder has to agree with the serialiser, else the harness is wrong
+		ref, used, ok := c04RefLiteral(append(append([]byte{}, body...), ")/E]"...))
+		if !ok || used != len(body)+1 || !bytes.Equal(ref, val) {
+			t.Fatalf("harness: spelling %q of %q decodes to %q (%d of %d bytes)", body, val, ref, used, len(body)+1)
+		}
+		pad := 0
+		switch rng.Intn(3) {
+		case 1:
+			pad = rng.Intn(1100)
+		case 2:
+			// the string crosses the end of the first buffer
+			pad = 1024 - 2 - rng.Intn(len(body)+2)
+		}
+		c04CheckLiteral(t, "literal-string-random", body, val, pad, &fails)
+	}
+	if fails > 25 {
+		t.Errorf("B2-FAIL literal-string-random (%d further failures not listed)", fails-25)
+	}
+	t.Logf("B2-CASES %d", rounds)
+}
+
+// ---- stream extents without a usable /Length, for every size ----
+
+// c04IsSpace: the six white-space characters of ISO 32000-1 table 1.
+func c04IsSpace(c byte) bool {
+	return c == 0 || c == '\t' || c == '\n' || c == '\f' || c == '\r' || c == ' '
+}
+
+// c04StreamBody makes a stream body of n bytes that neither ends in CR/LF nor contains an
+// end-of-line followed by "endstream", but does contain what comes close: CR, LF and CR LF,
+// the keyword without an end-of-line in front, an end-of-line followed by a cut keyword.
+func c04StreamBody(rng *rand.Rand, n int) []byte {
+	body := make([]byte, n)
+	letters := "abcdefghijklmnopqrstuvwxyz0123456789 "
+	for i := range body {
+		body[i] = letters[rng.Intn(len(letters))]
+	}
+	decoys := []string{"\n", "\r", "\r\n", "xendstream", " endstream ", "\nendstrea\n", "\rendstreaM", "\r\nendstrea", "\nendobj\n", "\nend", "e", "\ne"}
+	for k := rng.Intn(4); k > 0 && n > 0; k-- {
+		d := decoys[rng.Intn(len(decoys))]
+		pos := rng.Intn(n)
+		if rng.Intn(2) == 0 {
+			pos = n - rng.Intn(min(n, 24)) - 1 // near the end, where the real keyword follows
+		}
+		copy(body[pos:], d)
+	}
+	// repair: no EOL + "endstream" inside, no CR/LF at the end, no white space at either end
+	// (so that a wrong /Length of 0 or n-1 does not point at white space before the keyword)
+	for {
+		i := bytes.Index(body, []byte("endstream"))
+		if i < 0 {
+			break
+		}
+		if i > 0 && (body[i-1] == '\n' || body[i-1] == '\r') {
+			body[i-1] = '_'
+		}
+		// keep the keyword itself, but do not find it again
+		body[i] = 'E'
+	}
+	body = bytes.ReplaceAll(body, []byte("Endstream"), []byte("endstream"))
+	for i := 0; i+9 < len(body); i++ {
+		if (body[i] == '\n' || body[i] == '\r') && string(body[i+1:i+10]) == "endstream" {
+			body[i] = '_'
+		}
+	}
+	if n > 0 {
+		if c04IsSpace(body[0]) {
+			body[0] = 'S'
+		}
+		if c04IsSpace(body[n-1]) {
+			body[n-1] = 'Z'
+		}
+	}
+	return body
+}
+
+// TestB2C04StreamExtents: a stream whose /Length is missing, wrong (too small, too large,
+// beyond the end of the file, negative, not a number, an indirect object with a wrong value)
+// or unresolvable is delimited by the end-of-line before endstream.  Body lengths sweep over
+// more than two scanner buffers, so that the end-of-line and the keyword lie at every
+// position relative to the buffer; another stream follows, so that running past the keyword
+// does not go unnoticed.
+func TestB2C04StreamExtents(t *testing.T) {
+	rng := rand.New(rand.NewSource(c01Seed()))
+	maxLen := 2200
+	if b2Thorough() {
+		maxLen = 5200
+	}
+	lengths := []string{"", "/Length %SMALL%", "/Length %LARGE%", "/Length 1099511627776", "/Length -1", "/Length /None", "/Length 9 0 R", "/Length 5 0 R"}
+	eols := []string{"\n", "\r\n", "\r"}
+	cases, fails := 0, 0
+	fail := func(format string, args ...any) {
+		fails++
+		if fails <= 25 {
+			t.Errorf(format, args...)
+		}
+	}
+	// the length of the dictionary varies with the seed and with the /Length entry; for a given
+	// dictionary the sweep over n reaches every alignment
+	fill := strings.Repeat("F", rng.Intn(40))
+	for n := 0; n <= maxLen; n++ {
+		body := c04StreamBody(rng, n)
+		for _, lengthEntry := range lengths {
+			for _, eol := range eols {
+				var b bytes.Buffer
+				off := map[int]int{}
+				b.WriteString("%PDF-1.7\n%\xe2\xe3\xcf\xd3\n")
+				off[1] = b.Len()
+				b.WriteString("1 0 obj\n<</Type/Catalog/Pages 2 0 R>>\nendobj\n")
+				off[2] = b.Len()
+				b.WriteString("2 0 obj\n<</Type/Pages/Kids[]/Count 0>>\nendobj\n")
+				off[3] = b.Len()
+				head := fmt.Sprintf("3 0 obj\n<</Probe/%s%s>>\nstream\n", fill, lengthEntry)
+				tail := eol + "endstream\nendobj\n"
+				next := "4 0 obj\n<</Length 5>>\nstream\nother\nendstream\nendobj\n5 0 obj\n%WRONG%\nendobj\n"
+				// wrong lengths must not point at (white space followed by) an endstream keyword:
+				// the property excludes those, and the right length is not wrong
+				after := string(body) + tail + next
+				wrongLen := func(l int) int {
+					for {
+						p := l
+						for p < len(after) && c04IsSpace(after[p]) {
+							p++
+						}
+						if l != n && !strings.HasPrefix(after[p:], "endstream") {
+							return l
+						}
+						l++
+					}
+				}
+				small, large, wrong := 0, n+len(tail)+20, n+1+rng.Intn(30)
+				if n > 0 {
+					small = rng.Intn(n)
+					if rng.Intn(3) == 0 {
+						small = n - 1
+					}
+					if rng.Intn(2) == 0 {
+						wrong = rng.Intn(n)
+					}
+				}
+				small, large, wrong = wrongLen(small), wrongLen(large), wrongLen(wrong)
+				head = strings.Replace(head, "%SMALL%", fmt.Sprint(small), 1)
+				head = strings.Replace(head, "%LARGE%", fmt.Sprint(large), 1)
+				next = strings.Replace(next, "%WRONG%", fmt.Sprint(wrong), 1)
+				b.WriteString(head)
+				b.Write(body)
+				b.WriteString(tail)
+				off[4] = b.Len()
+				off[5] = off[4] + strings.Index(next, "5 0 obj")
+				b.WriteString(next)
+				xref := b.Len()
+				b.WriteString("xref\n0 6\n0000000000 65535 f \n")
+				for k := 1; k <= 5; k++ {
+					fmt.Fprintf(&b, "%010d 00000 n \n", off[k])
+				}
+				fmt.Fprintf(&b, "trailer\n<</Size 6/Root 1 0 R>>\nstartxref\n%d\n%%%%EOF\n", xref)
+				data := b.Bytes()
+				cases++
+				desc := fmt.Sprintf("n=%d length=%q eol=%q fill=%d", n, head[len("3 0 obj\n<</Probe/")+len(fill):len(head)-len(">>\nstream\n")], eol, len(fill))
+				r, err := NewReader(bytes.NewReader(data), int64(len(data)), nil)
+				if err != nil {
+					fail("B2-FAIL file-open %s: %v", desc, err)
+					continue
+				}
+				for _, probe := range []struct {
+					num  uint32
+					want []byte
+				}{{3, body}, {4, []byte("other")}} {
+					obj, err := r.Get(NewReference(probe.num, 0), true)
+					stm, ok := obj.(*Stream)
+					if err != nil || !ok {
+						fail("B2-FAIL stream-recover %s obj=%d: %s %s", desc, probe.num, b2Short(obj), b2ShortErr(err))
+						continue
+					}
+					rd, err := DecodeStream(r, nil, stm)
+					if err != nil {
+						fail("B2-FAIL stream-recover %s obj=%d: %s", desc, probe.num, b2ShortErr(err))
+						continue
+					}
+					got, err := io.ReadAll(rd)
+					if err != nil || !bytes.Equal(got, probe.want) {
+						fail("B2-FAIL stream-extent %s obj=%d want %d bytes ...%.20q got %d bytes ...%.30q err=%s", desc, probe.num, len(probe.want), probe.want[max(0, len(probe.want)-20):], len(got), got[max(0, len(got)-30):], b2ShortErr(err))
+					}
+				}
+			}
+		}
+	}
+	if fails > 25 {
+		t.Errorf("B2-FAIL stream-extent (%d further failures not listed)", fails-25)
 	}
 	t.Logf("B2-CASES %d", cases)
 }
